@@ -267,8 +267,27 @@ func CliCheck(prop, tier string) error {
 	}
 	ev := &Evidence{PropertyID: prop, Tier: tier, Seed: int64(seed), Level: "exploration", Coverage: map[string]any{}}
 	cov := ev.Coverage
-	cov["evaluations"] = total.MoqRuns
-	cov["distinct_nontrivial"] = len(sigs)
+	libEvals, libDistinct := 0, 0
+	if prop == "C17" {
+		// library half: Mocker.Mock driven in-process with a fault-injecting io.Writer
+		gb, err := BuildGensim(s)
+		if err != nil {
+			return err
+		}
+		gt := GenTiers[tier]
+		gt.CrossProcess = 0
+		oc, err := genRun(s, gb, "C17", tier, gt, seed, known, len(lines)+len(knownLines))
+		if err != nil {
+			return err
+		}
+		lines = append(lines, oc.lines...)
+		knownLines = append(knownLines, oc.knownLines...)
+		libEvals, libDistinct = oc.res.Generations, len(oc.sigs)
+		cov["library_half"] = map[string]any{"what": "Mocker.Mock(w, names...) through the public API with a writer that fails at once / after 0.1% / 50% / 99.9% of the bytes, and name lists with an unknown name, a non-interface or an unformattable alias at a tape-chosen position; observable: number of Write calls, bytes of the first call, returned error",
+			"generations": oc.res.Generations, "cells": oc.cells, "distinct_cases": len(oc.sigs), "faults_fired": oc.res.Faults, "samples": oc.res.Samples}
+	}
+	cov["evaluations"] = total.MoqRuns + libEvals
+	cov["distinct_nontrivial"] = len(sigs) + libDistinct
 	cov["rule"] = "one evaluation = one real moq process (os redirected to simos) inside a scenario: a history of 1-5 steps (run / repeat / damage -out / evolve interface / delete / break source) over one scratch module and one -out placement, each run step paired with a reference run of the same command to stdout in a copy of the pre-state. Distinct = distinct hash of the scenario's full trace (commands, prior states, exit statuses, fired faults, resulting -out state). Non-trivial = the scenario ran at least 3 moq processes or fired at least one injected fault."
 	cov["samples"] = samples
 	cov["seeds"] = seeds
